@@ -77,9 +77,6 @@ func TestRegistryRandom(t *testing.T) {
 						t.Fatal(err)
 					}
 					reg = rr
-					if effPrefix == "" {
-						effPrefix = "limiter."
-					}
 				} else {
 					dd = &nopCloser{}
 					var err error
@@ -93,6 +90,10 @@ func TestRegistryRandom(t *testing.T) {
 					}
 					reg = rr
 					defer cl.Close()
+				}
+				// where the samples are looked for; the naming rule itself is judged by RegistryTrace (TestRegistryNaming)
+				if effPrefix == "" {
+					effPrefix = "limiter."
 				}
 				if !strings.HasSuffix(effPrefix, ".") {
 					effPrefix += "."
